@@ -188,7 +188,8 @@ fn handle(op: &str, ty: &str, a: &[f64]) -> Option<String> {
         "deriv" => dispatch_all!(deriv_t, ty, a, [
             "P0" => Poly0, "P1" => Poly1, "P2" => Poly2, "P3" => Poly3, "P4" => Poly4, "P5" => Poly5,
             "P6" => Poly6, "P7" => Poly7, "P8" => Poly8,
-            "SP3" => Segment<Poly3>,
+            "SP0" => Segment<Poly0>, "SP1" => Segment<Poly1>, "SP2" => Segment<Poly2>, "SP3" => Segment<Poly3>,
+            "SP4" => Segment<Poly4>, "SP5" => Segment<Poly5>, "SP6" => Segment<Poly6>, "SP7" => Segment<Poly7>, "SP8" => Segment<Poly8>,
         ]),
         "indef" => dispatch_all!(indef_t, ty, a, [
             "P0" => Poly0, "P1" => Poly1, "P2" => Poly2, "P3" => Poly3, "P4" => Poly4, "P5" => Poly5,
@@ -196,7 +197,9 @@ fn handle(op: &str, ty: &str, a: &[f64]) -> Option<String> {
             "LP0" => Log<Poly0>, "LP1" => Log<Poly1>, "LP2" => Log<Poly2>, "LP3" => Log<Poly3>,
             "LP4" => Log<Poly4>, "LP5" => Log<Poly5>, "LP6" => Log<Poly6>, "LP7" => Log<Poly7>,
             "LP8" => Log<Poly8>,
-            "SP2" => Segment<Poly2>, "SLP2" => Segment<Log<Poly2>>,
+            "SP0" => Segment<Poly0>, "SP1" => Segment<Poly1>, "SP2" => Segment<Poly2>, "SP3" => Segment<Poly3>,
+            "SP4" => Segment<Poly4>, "SP5" => Segment<Poly5>, "SP6" => Segment<Poly6>, "SP7" => Segment<Poly7>,
+            "SLP1" => Segment<Log<Poly1>>, "SLP2" => Segment<Log<Poly2>>, "SLP4" => Segment<Log<Poly4>>,
         ]),
         "integ" => dispatch_all!(integ_t, ty, a, [
             "P0" => Poly0, "P1" => Poly1, "P2" => Poly2, "P3" => Poly3, "P4" => Poly4, "P5" => Poly5,
@@ -204,7 +207,9 @@ fn handle(op: &str, ty: &str, a: &[f64]) -> Option<String> {
             "LP0" => Log<Poly0>, "LP1" => Log<Poly1>, "LP2" => Log<Poly2>, "LP3" => Log<Poly3>,
             "LP4" => Log<Poly4>, "LP5" => Log<Poly5>, "LP6" => Log<Poly6>, "LP7" => Log<Poly7>,
             "LP8" => Log<Poly8>,
-            "SP2" => Segment<Poly2>, "SLP2" => Segment<Log<Poly2>>,
+            "SP0" => Segment<Poly0>, "SP1" => Segment<Poly1>, "SP2" => Segment<Poly2>, "SP3" => Segment<Poly3>,
+            "SP4" => Segment<Poly4>, "SP5" => Segment<Poly5>, "SP6" => Segment<Poly6>, "SP7" => Segment<Poly7>,
+            "SLP1" => Segment<Log<Poly1>>, "SLP2" => Segment<Log<Poly2>>, "SLP4" => Segment<Log<Poly4>>,
         ]),
         "mul" => dispatch_all!(mul_t, ty, a, [
             "P0" => Poly0, "P1" => Poly1, "P2" => Poly2, "P3" => Poly3, "P4" => Poly4, "P5" => Poly5,
@@ -373,6 +378,61 @@ fn handle(op: &str, ty: &str, a: &[f64]) -> Option<String> {
                 o.push(s.poly.k);
             }
             Some(out(&o))
+        }
+        "pwinteg" | "pwindef" => {
+            // type "<tag>x<n>": n segments of piece type <tag>, each (end, numbers of the piece); pwinteg: then knot x, y
+            let mut it = ty.split('x');
+            let tag = it.next()?;
+            let n: usize = it.next()?.parse().ok()?;
+            macro_rules! go {
+                ($t:ty) => {{
+                    let w = <$t as Flat>::N + 1;
+                    let pw = Piecewise {
+                        segments: (0..n).map(|i| Segment::<$t>::from_flat(&a[i * w..(i + 1) * w])).collect::<Vec<_>>(),
+                    };
+                    let r = if op == "pwinteg" {
+                        pw.integral(Knot { x: a[n * w], y: a[n * w + 1] })
+                    } else {
+                        pw.indefinite()
+                    };
+                    let mut o = Vec::new();
+                    for s in &r.segments {
+                        o.extend(s.to_flat());
+                    }
+                    Some(out(&o))
+                }};
+            }
+            match tag {
+                "P0" => go!(Poly0), "P1" => go!(Poly1), "P2" => go!(Poly2), "P3" => go!(Poly3), "P5" => go!(Poly5), "P7" => go!(Poly7),
+                "LP0" => go!(Log<Poly0>), "LP1" => go!(Log<Poly1>), "LP2" => go!(Log<Poly2>), "LP3" => go!(Log<Poly3>),
+                "LP4" => go!(Log<Poly4>), "LP5" => go!(Log<Poly5>), "LP8" => go!(Log<Poly8>),
+                _ => None,
+            }
+        }
+        "arb" => {
+            // Arbitrary for Piecewise<Poly0>: type "K": K ends then K piece values -> byte string [1][end]..[0][pieces..]
+            let k: usize = ty.parse().ok()?;
+            let mut bytes: Vec<u8> = Vec::new();
+            for i in 0..k {
+                bytes.push(1);
+                bytes.extend_from_slice(&a[i].to_bits().to_le_bytes());
+            }
+            bytes.push(0);
+            for i in 0..k {
+                bytes.extend_from_slice(&a[k + i].to_bits().to_le_bytes());
+            }
+            let mut u = arbitrary::Unstructured::new(&bytes);
+            match <Piecewise<Poly0> as arbitrary::Arbitrary>::arbitrary(&mut u) {
+                Err(_) => Some("ARBERR".to_string()),
+                Ok(pw) => {
+                    let mut o = Vec::new();
+                    for s in &pw.segments {
+                        o.push(s.end);
+                        o.push(s.poly.0);
+                    }
+                    Some(out(&o))
+                }
+            }
         }
         "linear" => {
             let pw = linear(&knots_of(a));
